@@ -284,6 +284,15 @@ void run_case(Choices &c, Ctx &ctx)
 			bytes += "null]";
 			if (c.coin(30))
 				bytes.resize(c.coin(50) ? 4096 : 8192, ' '); // exactly at a buffer boundary (invalid: truncated)
+			else if (c.coin(40))
+			{
+				// nesting somewhere in the long document, so a small depth limit trips in an arbitrary read block
+				size_t at = 1 + c.pickn(bytes.size() - 2);
+				at = bytes.find(',', at);
+				if (at != std::string::npos)
+					bytes.insert(at + 1, std::string(c.range(1, 6), '[') + "1" + std::string(6, ' ') + ",");
+				// (unbalanced on purpose in some cases: still compared with the in-memory parse)
+			}
 			ctx.label("read_long");
 			break;
 		}
@@ -342,6 +351,17 @@ void run_case(Choices &c, Ctx &ctx)
 			ctx.fail("unopenable", "json_object_from_file on an unopenable path did not fail with a message");
 		json_object *j = json_object_new_array();
 		json_object_array_add(j, json_object_new_int(1));
+		{
+			// a path long enough that the message has to be truncated to the error buffer
+			std::string longp = "/nonexistent-dir/" + std::string(c.range(100, 400), 'p') + "/f.json";
+			plant_sentinel();
+			json_object *lo = json_object_from_file(longp.c_str());
+			if (lo || !fresh_message())
+				ctx.fail("unopenable", "json_object_from_file on a long unopenable path (" + str(longp.size()) + " bytes) did not fail with a retrievable message");
+			plant_sentinel();
+			if (json_object_to_file(longp.c_str(), j) != -1 || !fresh_message())
+				ctx.fail("unopenable", "json_object_to_file on a long unopenable path (" + str(longp.size()) + " bytes) did not fail with a retrievable message");
+		}
 		plant_sentinel();
 		if (json_object_to_file("/nonexistent-dir/verif/out.json", j) != -1 || !fresh_message())
 			ctx.fail("unopenable", "json_object_to_file on an unopenable path did not fail with a message");
